@@ -15,6 +15,7 @@ use smartcore::decomposition::pca::{PCAParameters, PCA};
 use smartcore::decomposition::svd::{SVDParameters, SVD};
 use smartcore::ensemble::random_forest_classifier::{RandomForestClassifier, RandomForestClassifierParameters};
 use smartcore::ensemble::random_forest_regressor::{RandomForestRegressor, RandomForestRegressorParameters};
+use smartcore::error::{Failed, FailedError};
 use smartcore::linalg::naive::dense_matrix::DenseMatrix;
 use smartcore::linalg::BaseMatrix;
 use smartcore::linear::elastic_net::{ElasticNet, ElasticNetParameters};
@@ -29,6 +30,15 @@ use smartcore::math::distance::manhattan::Manhattan;
 use smartcore::math::distance::minkowski::Minkowski;
 use smartcore::math::distance::Distance;
 use smartcore::math::num::RealNumber;
+use smartcore::metrics::accuracy::Accuracy;
+use smartcore::metrics::auc::AUC;
+use smartcore::metrics::cluster_hcv::HCVScore;
+use smartcore::metrics::f1::F1;
+use smartcore::metrics::mean_absolute_error::MeanAbsoluteError;
+use smartcore::metrics::mean_squared_error::MeanSquareError;
+use smartcore::metrics::precision::Precision;
+use smartcore::metrics::r2::R2;
+use smartcore::metrics::recall::Recall;
 use smartcore::naive_bayes::bernoulli::{BernoulliNB, BernoulliNBParameters};
 use smartcore::naive_bayes::categorical::{CategoricalNB, CategoricalNBParameters};
 use smartcore::naive_bayes::gaussian::{GaussianNB, GaussianNBParameters};
@@ -1336,13 +1346,29 @@ fn kernels_t<T: Num>(c: &mut Case, sc: &Scen) {
 }
 
 // ------------------------------------------------------------------------------------------------
-// parameter structs (serialisable configuration objects; no outputs, no PartialEq)
+// parameter structs, metric structs (serialisable configuration objects; no outputs, no PartialEq) and the error value
 // ------------------------------------------------------------------------------------------------
 fn params_one<P: Serialize + DeserializeOwned>(c: &mut Case, width: &'static str, ty: &'static str, p: P) {
     let outs = |_: &P| Ok(Vec::new());
     let cx = Ctx { ty, width, outs: &outs, eq: None, smooth: false, variant: "" };
     c.bucket(&format!("type:{}", ty));
     roundtrip(c, &cx, &p, &[]);
+}
+
+/// the crate's serialisable error value (has PartialEq)
+fn failed_one(c: &mut Case, width: &'static str, v: Failed, other: Failed) {
+    let outs = |m: &Failed| Ok(m.to_string().bytes().map(|b| b as f64).collect());
+    let eq = |a: &Failed, b: &Failed| a == b;
+    let cx = Ctx { ty: "Failed", width, outs: &outs, eq: Some(&eq), smooth: false, variant: "" };
+    c.bucket("type:Failed");
+    let o0 = match run_outs(c, &cx, &v) {
+        Ok(o) => o,
+        Err(_) => return,
+    };
+    roundtrip(c, &cx, &v, &o0);
+    #[allow(clippy::eq_op)]
+    c.check("eq.reflexive", v == v, "eq/Failed", || "v == v is false".to_string());
+    c.check("eq.different", v != other && other != v, "eq/Failed", || format!("'{}' == '{}'", v, other));
 }
 
 fn params_t<T: Num>(c: &mut Case, _sc: &Scen) {
@@ -1380,6 +1406,22 @@ fn params_t<T: Num>(c: &mut Case, _sc: &Scen) {
     params_one(c, w, "MultinomialNBParameters", MultinomialNBParameters::<T> { alpha: at, priors: pri.as_ref().map(|p| tv::<T>(p)) });
     params_one(c, w, "CategoricalNBParameters", CategoricalNBParameters::<T> { alpha: at });
     params_one(c, w, "SVCParameters", SVCParameters::<T, DM<T>, LinearKernel>::default().with_c(at).with_tol(bt).with_epoch(k).with_kernel(Kernels::rbf(bt)));
+    params_one(c, w, "Accuracy", Accuracy {});
+    params_one(c, w, "AUC", AUC {});
+    params_one(c, w, "HCVScore", HCVScore {});
+    params_one(c, w, "F1", F1::<T> { beta: bt });
+    params_one(c, w, "MeanAbsoluteError", MeanAbsoluteError {});
+    params_one(c, w, "MeanSquareError", MeanSquareError {});
+    params_one(c, w, "Precision", Precision {});
+    params_one(c, w, "R2", R2 {});
+    params_one(c, w, "Recall", Recall {});
+    let msg = format!("k=[{}], alpha=[{}] \"quoted\" \u{e9}\n", k, a);
+    let (v, o) = match k % 3 {
+        0 => (Failed::fit(&msg), Failed::predict(&msg)),
+        1 => (Failed::transform(&msg), Failed::transform("other message")),
+        _ => (Failed::because(FailedError::SolutionFailed, &msg), Failed::because(FailedError::DecompositionFailed, &msg)),
+    };
+    failed_one(c, w, v, o);
     params_one(c, w, "SVRParameters", SVRParameters::<T, DM<T>, LinearKernel>::default().with_c(at).with_eps(bt).with_kernel(Kernels::polynomial(t::<T>(2.0), bt, at)));
 }
 
@@ -1637,36 +1679,36 @@ fn main() {
             "a JSON null is accepted only under keys that are Option or PhantomData fields of the crate's structs",
         ],
         families: vec![
-            Family::new("dense_shapes", 256, 6400, dense_shapes).exhaustive(true, true),
-            Family::new("dense_random", 150, 3000, dense_random),
-            Family::new("linear", 120, 2400, linear),
-            Family::new("ridge", 120, 2400, ridge),
-            Family::new("lasso", 120, 2400, lasso),
-            Family::new("elastic_net", 120, 2400, elastic_net),
-            Family::new("logistic", 120, 2400, logistic),
-            Family::new("knn_classifier", 160, 3200, knn_classifier),
-            Family::new("knn_regressor", 160, 3200, knn_regressor),
-            Family::new("tree_classifier", 150, 3000, tree_classifier),
-            Family::new("tree_regressor", 150, 3000, tree_regressor),
-            Family::new("forest_classifier", 150, 3000, forest_classifier),
-            Family::new("forest_regressor", 150, 3000, forest_regressor),
-            Family::new("nb_gaussian", 120, 2400, nb_gaussian),
-            Family::new("nb_bernoulli", 150, 3000, nb_bernoulli),
-            Family::new("nb_multinomial", 150, 3000, nb_multinomial),
-            Family::new("nb_categorical", 150, 3000, nb_categorical),
-            Family::new("svc", 240, 4800, svc),
-            Family::new("svr", 240, 4800, svr),
-            Family::new("kmeans", 120, 2400, kmeans),
-            Family::new("dbscan", 200, 4000, dbscan),
-            Family::new("pca", 200, 4000, pca),
-            Family::new("truncated_svd", 120, 2400, truncated_svd),
-            Family::new("cover_tree", 160, 3200, cover_tree),
-            Family::new("linear_search", 200, 4000, linear_search),
-            Family::new("distances", 180, 3600, distances),
-            Family::new("kernels", 120, 2400, kernels),
-            Family::new("params", 60, 1200, params),
+            Family::new("dense_shapes", 640, 12800, dense_shapes).exhaustive(true, true),
+            Family::new("dense_random", 600, 12000, dense_random),
+            Family::new("linear", 480, 9600, linear),
+            Family::new("ridge", 480, 9600, ridge),
+            Family::new("lasso", 480, 9600, lasso),
+            Family::new("elastic_net", 480, 9600, elastic_net),
+            Family::new("logistic", 480, 9600, logistic),
+            Family::new("knn_classifier", 640, 12800, knn_classifier),
+            Family::new("knn_regressor", 640, 12800, knn_regressor),
+            Family::new("tree_classifier", 600, 12000, tree_classifier),
+            Family::new("tree_regressor", 600, 12000, tree_regressor),
+            Family::new("forest_classifier", 600, 12000, forest_classifier),
+            Family::new("forest_regressor", 600, 12000, forest_regressor),
+            Family::new("nb_gaussian", 480, 9600, nb_gaussian),
+            Family::new("nb_bernoulli", 600, 12000, nb_bernoulli),
+            Family::new("nb_multinomial", 600, 12000, nb_multinomial),
+            Family::new("nb_categorical", 600, 12000, nb_categorical),
+            Family::new("svc", 960, 19200, svc),
+            Family::new("svr", 960, 19200, svr),
+            Family::new("kmeans", 480, 9600, kmeans),
+            Family::new("dbscan", 800, 16000, dbscan),
+            Family::new("pca", 800, 16000, pca),
+            Family::new("truncated_svd", 480, 9600, truncated_svd),
+            Family::new("cover_tree", 640, 12800, cover_tree),
+            Family::new("linear_search", 800, 16000, linear_search),
+            Family::new("distances", 720, 14400, distances),
+            Family::new("kernels", 480, 9600, kernels),
+            Family::new("params", 240, 4800, params),
         ],
-        min_nontrivial: 600,
+        min_nontrivial: 2500,
         case_timeout_s: 120,
     });
 }
